@@ -192,7 +192,7 @@ def plateaus(ctx, nd):
             for bumps in ([n // 2], [n // 3, n // 3 + 1], [3, n // 2, n - 4], list(range(n // 4, n // 4 + 5))):
                 x = np.full(n, level, dtype=np.int64)
                 x[bumps] += 1
-                for gap in (None, (5, 12), (n - 9, n - 2)):
+                for gap in (None, (5, 12), (n - 9, n - 2), (0, 1), (0, 5)):      # also a record that starts with missing cells
                     v = np.ones(n, bool)
                     if gap:
                         v[gap[0]:gap[1]] = False
